@@ -1753,7 +1753,7 @@ fn fam_glue(rng: &mut Rng, n: usize, out: &mut Out) {
 // ------------------------------------------------------------------ Pid::build / BiquadRepr::Ba glue (repr.rs, pid.rs)
 /// set one leaf of a miniconf tree through its `TreeAny` interface (the fields of `FilterRepr` are private: this is
 /// the route a settings front end takes)
-fn set_leaf<T: miniconf::TreeAny, V: 'static>(tree: &mut T, path: &str, v: V) {
+pub fn set_leaf<T: miniconf::TreeAny, V: 'static>(tree: &mut T, path: &str, v: V) {
     use miniconf::IntoKeys;
     let any = tree.mut_any_by_key(miniconf::Path::<&str, '/'>(path).into_keys()).expect("leaf path");
     *any.downcast_mut::<V>().expect("leaf type") = v;
@@ -1795,7 +1795,8 @@ fn fam_repr(rng: &mut Rng, n: usize, out: &mut Out) {
             set_leaf(&mut fr, "/max", mx);
             let args = format!("{} {} {} {} {} {} {} {} {} {} {} {}", ti, sk, svv.to_bits(), freq.to_bits(), gdb.to_bits(), sdb.to_bits(), off.to_bits(), mn.to_bits(), mx.to_bits(), period.to_bits(), bs.to_bits(), ys.to_bits());
             if i % 2 == 0 {
-                let b: Biquad<f64> = BiquadRepr::<f64, f64>::Filter(fr).build::<f64>(period, bs, ys);
+                // the builder intermediate type I is only used by the Pid arm: build::<f32> must give the same filter
+                let b: Biquad<f64> = if rng.chance(1, 2) { BiquadRepr::<f64, f64>::Filter(fr).build::<f32>(period, bs, ys) } else { BiquadRepr::<f64, f64>::Filter(fr).build::<f64>(period, bs, ys) };
                 if b.ba().iter().all(|v| v.is_finite()) {
                     out.emit(&format!("f_filterrepr 0 0 {}", args), Some(format!("{} {} {} {}", list(&b.ba().map(|v| v.to_bits())), b.u().to_bits(), b.min().to_bits(), b.max().to_bits())));
                     // the way back: coefficients as an f64 array with a0 = 1; Raw returns the stored biquad
@@ -1805,7 +1806,7 @@ fn fam_repr(rng: &mut Rng, n: usize, out: &mut Out) {
                     let raw = BiquadRepr::<f64, f64>::Raw(miniconf::Leaf(b.clone())).build::<f64>(period, bs, ys);
                     assert!(raw == b, "BiquadRepr::Raw must return the stored biquad");
                 }
-            } else if let Some(b) = guard(|| BiquadRepr::<f64, i32>::Filter(fr).build::<f64>(period, bs, ys)) {
+            } else if let Some(b) = guard(|| if i % 4 == 1 { BiquadRepr::<f64, i32>::Filter(fr.clone()).build::<f32>(period, bs, ys) } else { BiquadRepr::<f64, i32>::Filter(fr.clone()).build::<f64>(period, bs, ys) }) {
                 out.emit(&format!("f_filterrepr 32 30 {}", args), Some(format!("{} {} {} {}", list(b.ba()), b.u(), b.min(), b.max())));
                 let back: [[f64; 3]; 2] = (&b).into();
                 let flat = [back[0][0], back[0][1], back[0][2], back[1][0], back[1][1], back[1][2]];
@@ -1841,13 +1842,23 @@ fn fam_repr(rng: &mut Rng, n: usize, out: &mut Out) {
             *pid.max = mx;
             let args = format!("{} {} {} {} {} {} {} {} {}", period.to_bits(), order as usize, list(&gains.map(|v| v.to_bits())), list(&limits.map(|v| v.to_bits())),
                 b_scale.to_bits(), y_scale.to_bits(), setpoint.to_bits(), mn.to_bits(), mx.to_bits());
-            if i % 4 == 0 || crate::MODE != 'C' {
+            if i % 8 == 2 {
+                // builder intermediate type I = f32 (op f_pidrepr32)
+                if rng.chance(1, 2) || crate::MODE != 'C' {
+                    let b: Biquad<f64> = if rng.chance(1, 2) { BiquadRepr::<f64, f64>::Pid(pid.clone()).build::<f32>(period, b_scale, y_scale) } else { pid.build::<f64, f32>(period, b_scale, y_scale) };
+                    if b.ba().iter().all(|v| v.is_finite()) && b.u().is_finite() {
+                        out.emit(&format!("f_pidrepr32 0 0 {}", args), Some(format!("{} {} {} {}", list(&b.ba().map(|v| v.to_bits())), b.u().to_bits(), b.min().to_bits(), b.max().to_bits())));
+                    }
+                } else if let Some(b) = guard(|| BiquadRepr::<f64, i32>::Pid(pid.clone()).build::<f32>(period, b_scale, y_scale)) {
+                    out.emit(&format!("f_pidrepr32 32 30 {}", args), Some(format!("{} {} {} {}", list(b.ba()), b.u(), b.min(), b.max())));
+                }
+            } else if i % 4 == 0 || crate::MODE != 'C' {
                 // half of the time through the enum the settings tree holds (`BiquadRepr::Pid`)
                 let b: Biquad<f64> = if rng.chance(1, 2) { BiquadRepr::<f64, f64>::Pid(pid.clone()).build::<f64>(period, b_scale, y_scale) } else { pid.build::<f64, f64>(period, b_scale, y_scale) };
                 if b.ba().iter().all(|v| v.is_finite()) && b.u().is_finite() {
                     out.emit(&format!("f_pidrepr 0 0 {}", args), Some(format!("{} {} {} {}", list(&b.ba().map(|v| v.to_bits())), b.u().to_bits(), b.min().to_bits(), b.max().to_bits())));
                 }
-            } else if let Some(b) = guard(|| if i % 4 == 1 { BiquadRepr::<f64, i32>::Pid(pid.clone()).build::<f64>(period, b_scale, y_scale) } else { pid.build::<i32, f64>(period, b_scale, y_scale) }) {
+            } else if let Some(b) = guard(|| if i % 8 == 6 { BiquadRepr::<f64, i32>::Pid(pid.clone()).build::<f64>(period, b_scale, y_scale) } else { pid.build::<i32, f64>(period, b_scale, y_scale) }) {
                 out.emit(&format!("f_pidrepr 32 30 {}", args), Some(format!("{} {} {} {}", list(b.ba()), b.u(), b.min(), b.max())));
             }
         } else {
@@ -1864,7 +1875,7 @@ fn fam_repr(rng: &mut Rng, n: usize, out: &mut Out) {
             let flat = [coef[0][0], coef[0][1], coef[0][2], coef[1][0], coef[1][1], coef[1][2]];
             let args = format!("{} {} {} {} {} {}", list(&flat.map(|v| v.to_bits())), bs.to_bits(), y_scale.to_bits(), u.to_bits(), mn.to_bits(), mx.to_bits());
             if i % 4 == 1 {
-                let b: Biquad<f64> = BiquadRepr::<f64, f64>::Ba(ba).build::<f64>(period, bs, y_scale);
+                let b: Biquad<f64> = if rng.chance(1, 2) { BiquadRepr::<f64, f64>::Ba(ba).build::<f32>(period, bs, y_scale) } else { BiquadRepr::<f64, f64>::Ba(ba).build::<f64>(period, bs, y_scale) };
                 out.emit(&format!("f_ba 0 0 {}", args), Some(format!("{} {} {} {}", list(&b.ba().map(|v| v.to_bits())), b.u().to_bits(), b.min().to_bits(), b.max().to_bits())));
             } else if let Some(b) = guard(|| BiquadRepr::<f64, i32>::Ba(ba).build::<f64>(period, bs, y_scale)) {
                 out.emit(&format!("f_ba 32 30 {}", args), Some(format!("{} {} {} {}", list(b.ba()), b.u(), b.min(), b.max())));
